@@ -19,7 +19,7 @@ pub struct QueryCase {
 
 fn c13_ops(c: &QueryCase, st: &mut Stats) -> CheckResult {
     let k = c.prog.k as usize;
-    let mut sh = Shadow::new(k);
+    let mut sh = Shadow::new(k).with_spread(c.prog.spread);
     for (i, op) in c.prog.ops.iter().enumerate() {
         sh.step(op).map_err(|e| format!("step {i}: {e}"))?;
     }
@@ -33,7 +33,7 @@ fn c13_ops(c: &QueryCase, st: &mut Stats) -> CheckResult {
     let gv = (c.goal_var as usize) % (k + 1);
     let mut nt = false;
     for (h, t, _) in &sh.issued {
-        nt |= check_queries(&sh.bdd, k, *h, t, &termlist, gv, false)?;
+        nt |= crate::queries::check_queries_mapped(&sh.bdd, k, *h, t, &termlist, gv, false, &sh.vm)?;
     }
     st.count("diagrams_queried", sh.issued.len() as u64);
     if nt {
